@@ -27,6 +27,8 @@ assume pure func (v reflect.Value) Elem() reflect.Value
 
 assume pure func (v reflect.Value) IsNil() bool
 
+assume pure func (v reflect.Value) IsValid() bool
+
 -- the dynamic type of what Interface() returns: the value's own type, except for a value of interface kind
 -- (reflect.Interface), where it is the type of the value the interface holds
 assume pure func (v reflect.Value) Interface() interface{}
